@@ -201,6 +201,7 @@ Theorem C18_cell_matrix :
   (forall d, hop_cell_ok RB (HWrite d) = false /\ hop_cell_ok RPB (HWrite d) = true /\
              hop_cell_ok WB (HWrite d) = true /\ hop_cell_ok AB (HWrite d) = true).
 Proof. exact cell_matrix. Qed.
+Print Assumptions C18_cell_matrix.
 
 (* mkdir agrees for every path and every combination of parents / exist_ok *)
 Theorem C18_mkdir_agree : forall t p par eok,
@@ -214,7 +215,8 @@ Theorem C18_worker_scripts_in_matrix : forall m restart blocks,
   script_ok (if 0 <? restart then RPB else m)
             ((if 0 <? restart then [HSeek restart] else []) ++ map HWrite blocks) = true
   /\ script_ok RB ((if 0 <? restart then [HSeek restart] else []) ++ [HRead (-1)]) = true.
-Proof. intros m restart blocks H. split; [exact (store_script_in_matrix m restart blocks H)|exact (retr_script_in_matrix restart)]. Qed.
+Proof. exact worker_scripts_in_matrix. Qed.
+Print Assumptions C18_worker_scripts_in_matrix.
 
 Example C18_api_oks_nonvacuous :
   api_oks wt0
